@@ -50,3 +50,7 @@ Definition judge_re {Q} `{EqDec Q} `{Canon Q} (A : enfa Q) (r : re) (limit k : n
        | Some w => VDiff (Some w)
        | None => VEqBounded k
        end.
+
+(* ---- C16: transducers ---- *)
+From PFL Require Export Spec.Fst Model.Fst.
+Definition TFUEL : nat := 24%nat.
